@@ -367,6 +367,14 @@ func styleParamIdx(p *Program, fn *ssa.Function) map[int]bool {
 // R-PART-DEP (C13): regenerated parts depend on what they replace / on the registry.
 // ---------------------------------------------------------------------------
 
+func funcSet(fs []*ssa.Function) map[*ssa.Function]bool {
+	m := map[*ssa.Function]bool{}
+	for _, f := range fs {
+		m[f] = true
+	}
+	return m
+}
+
 func rulePartDep(r *Run) {
 	p := r.P
 	sl := newSlicer(p)
@@ -398,7 +406,16 @@ func rulePartDep(r *Run) {
 	// (b) numbering: the regenerated numbering part depends on the existing part or a per-document registry
 	if fn := r.mustFunc(pkgDoc, "(*Document).updateNumberingFile"); fn != nil {
 		found := false
-		allInstrs(fn, func(in ssa.Instruction) {
+		// the store itself, or the store made by a helper the function hands the bytes to
+		// (storeNumberingPart(data), shared with the initialisation)
+		var scope []*ssa.Function
+		scope = append(scope, fn)
+		for g := range p.staticReach(fn) {
+			if g != fn && g.Pkg != nil && g.Pkg.Pkg.Path() == pkgDoc {
+				scope = append(scope, g)
+			}
+		}
+		forEachInstr(sortedFuncs(funcSet(scope)), func(in ssa.Instruction) {
 			mu, ok := in.(*ssa.MapUpdate)
 			if !ok {
 				return
@@ -407,7 +424,7 @@ func rulePartDep(r *Run) {
 				return
 			}
 			found = true
-			res := sl.Slice(mu.Value)
+			res := sl.SliceFrom(mu.Value, fn)
 			dep := false
 			for v := range res.Vals {
 				// reads the old part, or any per-document state
@@ -433,7 +450,8 @@ func rulePartDep(r *Run) {
 	if fn := p.Func(pkgDoc, "(*Document).serializeStyles"); fn != nil {
 		guarded := false
 		forEachInstr(helperGroup(p, fn), func(in ssa.Instruction) {
-			if lk, ok := in.(*ssa.Lookup); ok && lk.CommaOk {
+			// `_, exists := parts[k]` or `len(parts[k]) > 0` / `parts[k] != nil`
+			if lk, ok := in.(*ssa.Lookup); ok {
 				if k, ok := symOf(lk.Index).isConst(); ok && k == "word/styles.xml" {
 					guarded = true
 				}
